@@ -403,9 +403,21 @@ const NEAR: [&str; 26] = [
     "app_r2021-03-28_02-30-00.log", "app_r2023-10-29_02-30-00.log",
 ];
 
+/// name "*": every near-miss name at once, plus non-padded and long numbers and digit/letter
+/// endings of different lengths (a crowded directory for the sorting and listing code)
 fn prepop_case(name: &str, naming: NamingK, clean: CleanK, append: bool, as_dir: bool) -> Result<(), (String, String)> {
     let env = Env::new("c10p");
-    let p = env.dir.join(name);
+    if name == "*" {
+        for n in NEAR {
+            if !n.contains("4294967") {
+                std::fs::write(env.dir.join(n), b"pre-existing\n").ok();
+            }
+        }
+        for n in ["app_r7bak.log", "app_r7.log", "app_r77.log", "app_r777bak.log", "app_r123456.log", "app_r1234567.log", "app_r12345678x.log", "app_r9.log", "app_rx9.log", "app_r00001x.log", "app_r000012.log", "app_r0000123y.log", "app_r5.log", "app_r55z.log", "app_r555.log", "app_r5555q.log", "app_r2.log", "app_r22.log", "app_r222w.log", "app_r2222.log"] {
+            std::fs::write(env.dir.join(n), b"pre-existing\n").ok();
+        }
+    }
+    let p = env.dir.join(if name == "*" { "app_extra" } else { name });
     if as_dir {
         std::fs::create_dir_all(&p).ok();
     } else {
@@ -492,6 +504,61 @@ fn toml_case(t: &str) -> Result<(), (String, String)> {
         }
     }
     Ok(())
+}
+
+/// The error channel is stdout / stderr, that stream is a full device, and the caller has asked
+/// not to panic when the error channel is broken: a log call that has something to report (an
+/// unknown writer name) comes back.
+/// (the setting is taken from the first logger that is built in a process: a fresh child process)
+fn errchan_case(i: usize) -> Result<(), (String, String)> {
+    let exe = std::env::current_exe().map_err(|e| ("machinery".to_string(), e.to_string()))?;
+    let o = std::process::Command::new(exe).args(["child", "c10errchan", &i.to_string()]).output().map_err(|e| ("machinery".to_string(), e.to_string()))?;
+    if o.status.success() {
+        Ok(())
+    } else {
+        Err(("panic".to_string(), format!("child process: {} {}", String::from_utf8_lossy(&o.stdout).chars().take(300).collect::<String>(), String::from_utf8_lossy(&o.stderr).chars().rev().take(400).collect::<String>().chars().rev().collect::<String>())))
+    }
+}
+
+/// `fxv child c10errchan <i>`
+pub fn child_errchan(args: &[String]) -> i32 {
+    let i: usize = args.first().and_then(|a| a.parse().ok()).unwrap_or(0);
+    match std::panic::catch_unwind(|| errchan_in_process(i)) {
+        Ok(Ok(())) => 0,
+        Ok(Err((c, d))) => {
+            println!("{c}: {d}");
+            1
+        }
+        Err(_) => {
+            println!("panicked");
+            1
+        }
+    }
+}
+
+fn errchan_in_process(i: usize) -> Result<(), (String, String)> {
+    let (chan, fd) = if i % 2 == 0 { (ErrorChannel::StdOut, 1) } else { (ErrorChannel::StdErr, 2) };
+    let rec = Recorder::new(LevelFilter::Trace);
+    let (logger, handle) = Logger::with(LogSpecification::trace())
+        .log_to_writer(Box::new(rec))
+        .error_channel(chan)
+        .panic_if_error_channel_is_broken(false)
+        .build()
+        .map_err(|e| ("build".to_string(), e.to_string()))?;
+    let full = FdCapture::start(fd, std::path::PathBuf::from("/dev/full"));
+    let r = std::panic::catch_unwind(std::panic::AssertUnwindSafe(|| {
+        lg::log_to(&*logger, Level::Error, "{NoSuchWriter,_Default}", "to an unknown writer");
+        lg::log_to(&*logger, Level::Error, "{NoSuchWriter}", "to an unknown writer only");
+    }));
+    if let Some(c) = full {
+        c.restore();
+    }
+    drop(handle);
+    drop(logger);
+    match r {
+        Ok(()) => Ok(()),
+        Err(p) => std::panic::resume_unwind(p),
+    }
 }
 
 /// Rotation parameters at their extremes: W R W W restart W shutdown must come back (a
@@ -879,7 +946,8 @@ fn run_unit(tier: &str, unit: usize, out: &mut Out) {
     u -= n_file_units();
     if u < n_prepop_units() {
         let naming = NG[u];
-        for (ni, name) in NEAR.iter().enumerate() {
+        for (ni, name) in NEAR.iter().copied().chain(["*"]).enumerate() {
+            let name = &name;
             for clean in [CleanK::Never, CleanK::Log(1), CleanK::Gz(1)] {
                 for append in [false, true] {
                     for as_dir in [false, true] {
@@ -920,6 +988,10 @@ fn run_unit(tier: &str, unit: usize, out: &mut Out) {
     for (i, t) in toml_inputs().into_iter().enumerate() {
         let r = guard("spec-toml", &format!("toml text #{i}"), move || toml_case(&t));
         record(out, r, json!({"kind": "toml", "i": i}), Some(format!("t{i}")));
+    }
+    for i in 0..2 {
+        let r = guard("error-channel-broken", &format!("error channel case {i}"), move || errchan_case(i));
+        record(out, r, json!({"kind": "errchan", "i": i}), Some(format!("e{i}")));
     }
     for i in 0..N_ROTATION_EXTREMES {
         let r = guard("rotation-extremes", &format!("rotation parameters case {i}"), move || rotation_extremes_case(i));
@@ -964,7 +1036,8 @@ fn replay(case: &Value) -> Vec<Violation> {
         }
         Some("prepop") => {
             let naming = NG[case["naming"].as_u64().unwrap_or(0) as usize % NG.len()];
-            let name = NEAR[case["name"].as_u64().unwrap_or(0) as usize % NEAR.len()].to_string();
+            let ni = case["name"].as_u64().unwrap_or(0) as usize;
+            let name = if ni >= NEAR.len() { "*".to_string() } else { NEAR[ni].to_string() };
             let clean = match case["clean"].as_str().unwrap_or("") {
                 "Log(1)" => CleanK::Log(1),
                 "Gz(1)" => CleanK::Gz(1),
@@ -980,6 +1053,10 @@ fn replay(case: &Value) -> Vec<Violation> {
                 Some(t) => guard("spec-toml", "toml text", move || toml_case(&t)),
                 None => Ok(()),
             }
+        }
+        Some("errchan") => {
+            let i = case["i"].as_u64().unwrap_or(0) as usize;
+            guard("error-channel-broken", "error channel", move || errchan_case(i))
         }
         Some("rotation-extremes") => {
             let i = case["i"].as_u64().unwrap_or(0) as usize;
